@@ -240,7 +240,7 @@ let do_jit dual mask ops =
         let nh = List.length !s.Oomtxn.vs_handles and nid = !st.Oomtxn.nextid in
         let ((((st1, res), s1), kv1), kh1) = Oomtxn.jit_alloc okv okh dual cfg !st !s (cz_of_string (tail tok)) !kv !kh in
         if List.length s1.Oomtxn.vs_handles > nh && (match List.nth s1.Oomtxn.vs_handles nh with Some _ -> true | None -> false) then
-          blockmap := (z_of_cz nid, nh) :: !blockmap;
+          blockmap := (nid, nat_of_int nh) :: !blockmap;
         st := st1; s := s1; kv := kv1; kh := kh1;
         (match res with
          | Oomtxn.RAlloc (Oomtxn.Ok0, id, off, _) -> spans := !spans @ [Some (id, off)]; 0
@@ -251,17 +251,27 @@ let do_jit dual mask ops =
         (match (if i < List.length !spans then List.nth !spans i else None) with
          | None -> 2
          | Some (id, off) ->
-           let (st1, res) = Oomtxn.release cfg !st id off in
-           st := st1;
+           (* the proven joint step: C09's release x C15's deletion of the block's views (JitJointModel.jit_release) *)
+           let ((st1, res), s1) = Oomtxn.jit_release okv okh !blockmap cfg !st !s id off !kv !kh in
+           st := st1; s := s1;
            spans := List.mapi (fun j x -> if j = i then None else x) !spans;
            (match res with
-            | Oomtxn.RRelease (Oomtxn.Ok0, bid, deleted) ->
-              if deleted then begin
-                let h = List.assoc (z_of_cz bid) !blockmap in
-                let (((_, s1), _), _) = Oomtxn.vm_step okv okh (Oomtxn.VDel (nat_of_int h)) !s !kv !kh in
-                s := s1
-              end; 0
+            | Oomtxn.RRelease (Oomtxn.Ok0, _, _) -> 0
             | _ -> 2))
+      | 'h' ->
+        (match String.split_on_char ':' (tail tok) with
+         | [is; ns] ->
+           let i = int_of_string is in
+           (match (if i < List.length !spans then List.nth !spans i else None) with
+            | None -> 2
+            | Some (id, off) ->
+              (* the proven joint step (JitJointModel.jit_shrink) *)
+              let ((st1, res), s1) = Oomtxn.jit_shrink okv okh !blockmap cfg !st !s id off (cz_of_string ns) !kv !kh in
+              st := st1; s := s1;
+              (match res with
+               | Oomtxn.RShrink (Oomtxn.Ok0, _, _) -> if int_of_string ns = 0 then spans := List.mapi (fun j x -> if j = i then None else x) !spans; 0
+               | _ -> 2))
+         | _ -> failwith "shrink")
       | _ -> failwith "jitop" in
     Buffer.add_string b (Printf.sprintf " %d/%d/%d/%d" r (List.length !s.Oomtxn.vs_views) (int_of_nat !s.Oomtxn.vs_heap) (List.length !st.Oomtxn.blocks))) ops;
   Buffer.add_string b (Printf.sprintf " | end 0/0/0 req=%d,%d" (int_of_nat !kv) (int_of_nat !kh));
